@@ -24,6 +24,7 @@ class Fwd:
         self.returns = []      # (path condition list, expr | None)
         self.raises = []       # (path condition list, class text)
         self.effects = []      # (path condition list, stmt text) for non-assignment statements
+        self.ends = []         # split mode: (path condition list, env) of every path that falls off the end of the list
         self.keep_attrs = keep_attrs
 
     def run(self, stmts, env=None, conds=()):
@@ -106,6 +107,8 @@ class Fwd:
                 self.loopctl.append((list(conds), "continue" if isinstance(st, ast.Continue) else "break"))
                 return None
             raise AnalysisError("forward substitution: statement outside the vocabulary: %s" % canon(st)[:60])
+        if self.split:
+            self.ends.append((list(conds), dict(env)))
         return env
 
 
